@@ -28,9 +28,11 @@ def V(name):
 
 
 class Var:
-    def __init__(self, ty, const=None, maybe=False, cell=None, present=False):
+    def __init__(self, ty, const=None, maybe=False, cell=None, present=False, absent=False, sym=None):
         self.ty, self.const, self.maybe, self.cell = ty, const, maybe, cell
-        self.present = present    # an optional parameter inside the branch where it is known not to be None   # maybe: the Gallina variable holds an option (possibly unbound local)
+        self.absent, self.sym = absent, sym    # absent: an optional parameter known to be None here; sym: a symbolic value (no Gallina term)
+        self.present = present
+        self.alias = None          # Gallina name holding the value once a possibly-unbound local has been read (py_get)    # an optional parameter inside the branch where it is known not to be None   # maybe: the Gallina variable holds an option (possibly unbound local)
 
     def copy(self):
         return Var(self.ty, self.const, self.maybe, self.cell)
@@ -81,13 +83,19 @@ class Fn:
             if e.id not in env:
                 raise Untranslatable("free name " + e.id)
             v = env[e.id]
+            if v.sym is not None:
+                return v.sym, "SYM"
+            if v.absent:
+                return "None", "NONE"
             if v.maybe:
                 if v.cell.get("ty") is None:
                     raise Untranslatable(f"{e.id} read before its type is known")
                 h = self.fresh()
                 pre.append((h, f"py_get {V(e.id)}"))
+                nv = Var(v.cell["ty"], None, False, v.cell); nv.alias = h
+                env[e.id] = nv             # later reads on this path reuse the value
                 return h, v.cell["ty"]
-            return V(e.id), v.ty
+            return (v.alias or V(e.id)), v.ty
         if isinstance(e, ast.UnaryOp) and isinstance(e.op, ast.USub):
             if isinstance(e.operand, ast.Constant) and isinstance(e.operand.value, int) and not isinstance(e.operand.value, bool):
                 return f"(-{e.operand.value})%Z", Z
@@ -105,6 +113,14 @@ class Fn:
         if isinstance(e, ast.BinOp) and isinstance(e.op, (ast.Add, ast.Sub, ast.Mult)):
             a, ta = self.expr(e.left, env, pre)
             b, tb = self.expr(e.right, env, pre)
+            if isinstance(e.op, ast.Mult) and ta == T and tb == "SYM" and b[0] in ("ROWVEC", "COLVEC"):
+                # X * reshape(w, (1, -1)) / X * reshape(m, (-1, 1)) for a 2-D X: the model's broadcasts apply_w / apply_mask
+                h = self.fresh(); pre.append((h, f"{'apply_w' if b[0] == 'ROWVEC' else 'apply_mask'} Op (Some {b[1]}) {a}"))
+                return h, T
+            if isinstance(e.op, ast.Mult) and ta == T and tb == Z and (b == "(1)%Z" or (isinstance(e.right, ast.Name) and env[e.right.id].const == 1)):
+                return a, T
+            if isinstance(e.op, ast.Mult) and ta == "SYM" and tb == "SYM" and a[0] == "COLBLOCK" and b[0] == "ROWBLOCK":
+                return ("KRPROD", a[1], b[1]), "SYM"
             if ta == N and tb == N and not isinstance(e.op, ast.Sub):
                 return f"({a} {'+' if isinstance(e.op, ast.Add) else '*'} {b})", N
             op = {ast.Add: "+", ast.Sub: "-", ast.Mult: "*"}[type(e.op)]
@@ -123,6 +139,8 @@ class Fn:
             c, tc = self.expr(e.test, env, pre)
             if tc != B:
                 raise Untranslatable("condition " + _u(e.test))
+            if c in ("true", "false"):
+                return self.expr(e.body if c == "true" else e.orelse, env, pre)
             p2, p3 = [], []
             a, ta = self.expr(e.body, env, p2)
             b, tb = self.expr(e.orelse, env, p3)
@@ -151,8 +169,8 @@ class Fn:
         for op, right in zip(e.ops, e.comparators):
             if isinstance(op, (ast.Is, ast.IsNot)):
                 if (isinstance(right, ast.Constant) and right.value is None and isinstance(left, ast.Name)
-                        and left.id in env and env[left.id].present):
-                    parts.append("false" if isinstance(op, ast.Is) else "true")
+                        and left.id in env and (env[left.id].present or env[left.id].absent)):
+                    parts.append(("false" if isinstance(op, ast.Is) else "true") if env[left.id].present else ("true" if isinstance(op, ast.Is) else "false"))
                     left = right
                     continue
                 if not (isinstance(right, ast.Constant) and right.value is None and isinstance(left, ast.Name)
@@ -218,6 +236,33 @@ class Fn:
             return f"(conj_t Op {self.arg(c.args[0], env, pre, T)})", T
         if self.is_backend(f, "transpose") and len(c.args) == 1 and not c.keywords:
             return f"(transpose_rev Op {self.arg(c.args[0], env, pre, T)})", T
+        if (self.is_backend(f, "tensor") and len(c.args) == 1 and len(c.keywords) == 1 and c.keywords[0].arg is None
+                and isinstance(c.keywords[0].value, ast.Call) and self.is_backend(c.keywords[0].value.func, "context")
+                and len(c.keywords[0].value.args) == 1 and not c.keywords[0].value.keywords):
+            self.arg(c.keywords[0].value.args[0], env, pre, T)          # evaluated (may raise), value = dtype / device only
+            return self.arg(c.args[0], env, pre, T), T
+        if self.is_backend(f, "reshape") and len(c.args) == 2 and not c.keywords and isinstance(c.args[1], ast.Tuple):
+            x, tx = self.expr(c.args[0], env, pre)
+            dims = c.args[1].elts
+            lit = [(-d.operand.value if isinstance(d, ast.UnaryOp) and isinstance(d.op, ast.USub) and isinstance(d.operand, ast.Constant) else
+                    d.value if isinstance(d, ast.Constant) else None) for d in dims]
+            if tx == T and lit == [1, -1]:
+                return ("ROWVEC", x), "SYM"
+            if tx == T and lit == [-1, 1]:
+                return ("COLVEC", x), "SYM"
+
+            def dim_of(d):
+                return env[d.id].sym if isinstance(d, ast.Name) and d.id in env and env[d.id].sym is not None and env[d.id].sym[0] == "DIM" else None
+            if tx == T and len(dims) == 3 and lit[1] == 1 and dim_of(dims[0]) == ("DIM", x, 0) and dim_of(dims[2]) == ("DIM", x, 1):
+                return ("COLBLOCK", x), "SYM"
+            if tx == T and len(dims) == 3 and lit[0] == 1 and dim_of(dims[1]) == ("DIM", x, 0) and dim_of(dims[2]) == ("DIM", x, 1):
+                return ("ROWBLOCK", x), "SYM"
+            if tx == "SYM" and x[0] == "KRPROD" and len(dims) == 2 and lit[0] == -1:
+                n, tn = self.expr(dims[1], env, pre)
+                if tn == N:
+                    h = self.fresh(); pre.append((h, f"kr_step_n Op {x[1]} {x[2]} {n}"))
+                    return h, T
+            raise Untranslatable("reshape idiom " + _u(c))
         if self.is_backend(f, "kron") and len(c.args) == 2 and not c.keywords:
             return f"(kron2 Op {self.arg(c.args[0], env, pre, T)} {self.arg(c.args[1], env, pre, T)})", T
         if self.is_backend(f, "dot") and len(c.args) == 2 and not c.keywords:
@@ -267,6 +312,20 @@ class Fn:
             z = self.arg(a["mode"], env, pre, Z); tr = self.arg(a.get("transpose"), env, pre, B, "false")
             h = self.fresh(); pre.append((h, f"mode_dot_z Op {t} {m} {z} {tr}"))
             return h, T
+        if isinstance(f, ast.Name) and f.id == "multi_mode_dot":
+            a = self.kwargs(c, ["tensor", "matrix_or_vec_list", "modes", "skip", "transpose"], 2)
+            if "modes" in a:
+                raise Untranslatable("multi_mode_dot with explicit modes: " + _u(c))
+            t = self.arg(a["tensor"], env, pre, T); l = self.arg(a["matrix_or_vec_list"], env, pre, LT)
+            sk = self.arg(a.get("skip"), env, pre, ON, "None"); tr = self.arg(a.get("transpose"), env, pre, B, "false")
+            h = self.fresh()       # modes=None is range(len(list)) by multi_mode_dot_source_is_model
+            pre.append((h, f"multi_mode_dot_z Op {t} {l} (map Z.of_nat (seq 0 (length {l}))) {sk} {tr}"))
+            return h, T
+        if self.is_backend(f, "stack") and len(c.args) == 1 and len(c.keywords) == 1 and c.keywords[0].arg == "axis" \
+                and isinstance(c.keywords[0].value, ast.Constant) and c.keywords[0].value.value == 1:
+            l = self.arg(c.args[0], env, pre, LT)
+            h = self.fresh(); pre.append((h, f"np_stack1 Op {l}"))
+            return h, T
         if isinstance(f, ast.Name) and f.id == "khatri_rao":
             a = self.kwargs(c, ["matrices", "weights", "skip_matrix", "mask"], 1)
             ms = self.arg(a["matrices"], env, pre, LT); w = self.arg(a.get("weights"), env, pre, OT, "None")
@@ -298,6 +357,8 @@ class Fn:
         if isinstance(s, ast.Slice):
             if ty not in (LT, LZ, LN):
                 raise Untranslatable("slice of " + _u(e.value))
+            if (s.upper is None and s.step is None and isinstance(s.lower, ast.Constant) and s.lower.value == 1):
+                return f"(tl {t})", ty
             if s.lower is None and s.upper is None and s.step is not None:
                 step = None
                 if isinstance(s.step, ast.Name) and s.step.id in env and env[s.step.id].const is not None:
@@ -311,7 +372,16 @@ class Fn:
                 if step == -1:
                     return f"(rev {t})", ty
             raise Untranslatable("slice " + _u(e))
+        if (ty == T and isinstance(s, ast.Tuple) and len(s.elts) == 2 and isinstance(s.elts[0], ast.Slice)
+                and s.elts[0].lower is None and s.elts[0].upper is None and s.elts[0].step is None):
+            r, tr_ = self.expr(s.elts[1], env, pre)
+            if tr_ == N:
+                return f"(column Op {t} {r})", T
+            raise Untranslatable("column index " + _u(e))
         i, ti = self.expr(s, env, pre)
+        if ty == LT and ti == Z and i.startswith("(") and i.endswith(")%Z") and i[1:-3].isdigit():
+            h = self.fresh(); pre.append((h, f"py_item {t} {i[1:-3]}"))      # IndexError when the list is too short
+            return h, T
         if ty == LN and ti == N:
             return f"(nth {i} {t} 0)", N
         if ty == LN and ti == Z:
@@ -381,7 +451,7 @@ class Fn:
                 text, ty = self.coerce(text, ty, OPTION_OF[old.ty]), OPTION_OF[old.ty]
             else:
                 raise Untranslatable(f"{name} changes type from {old.ty} to {ty}")
-        env[name] = Var(ty, const)
+        env[name] = Var(ty, const, present=bool(old is not None and old.present and old.ty == ty))
         return f"let {V(name)} := {text} in ", env
 
     def run(self, stmts, env, k):
@@ -414,8 +484,28 @@ class Fn:
                 const = s.value.value
             if isinstance(s.value, ast.UnaryOp) and isinstance(s.value.op, ast.USub) and isinstance(s.value.operand, ast.Constant):
                 const = -s.value.operand.value
+            if ty == Z and isinstance(t, str) and t.startswith("(") and t.endswith(")%Z") and t[1:-3].lstrip("-").isdigit():
+                const = int(t[1:-3])
+            if ty == "EMPTY" and s.targets[0].id not in env:
+                if not any(isinstance(n, ast.Call) and isinstance(n.func, ast.Attribute) and n.func.attr == "append" and isinstance(n.func.value, ast.Name)
+                           and n.func.value.id == s.targets[0].id for n in ast.walk(self.fn)):
+                    raise Untranslatable("empty list never appended to: " + _u(s))
+                t, ty = "(@nil (tensor F))", LT       # the routines only collect arrays
+            if ty == "SYM":
+                env2 = dict(env); env2[s.targets[0].id] = Var("SYM", sym=t)
+                return self.wrap(pre, self.run(rest, env2, k))
             let, env2 = self.assign(s.targets[0].id, t, ty, env, const)
             return self.wrap(pre, let + self.run(rest, env2, k))
+        if (isinstance(s, ast.Assign) and len(s.targets) == 1 and isinstance(s.targets[0], ast.Tuple) and len(s.targets[0].elts) == 2
+                and all(isinstance(x, ast.Name) for x in s.targets[0].elts) and isinstance(s.value, ast.Call)
+                and (self.is_backend(s.value.func, "shape")) and len(s.value.args) == 1 and not s.value.keywords):
+            pre = []
+            x = self.arg(s.value.args[0], env, pre, T)
+            h = self.fresh(); pre.append((h, f"py_shape2 {x}"))       # ValueError unless the array is 2-D
+            env2 = dict(env)
+            for j, nm in enumerate(s.targets[0].elts):
+                env2[nm.id] = Var("SYM", sym=("DIM", x, j))
+            return self.wrap(pre, self.run(rest, env2, k))
         if isinstance(s, ast.Assign) and len(s.targets) == 1 and isinstance(s.targets[0], ast.Tuple) and isinstance(s.value, ast.Name):
             v = env.get(s.value.id)
             names = [x.id for x in s.targets[0].elts if isinstance(x, ast.Name)]
@@ -444,6 +534,15 @@ class Fn:
             h = self.fresh(); pre.append((h, f"py_pop_z {V(x)} {i}"))
             let, env2 = self.assign(x, h, LN, env)
             return self.wrap(pre, let + self.run(rest, env2, k))
+        if (isinstance(s, ast.Expr) and isinstance(s.value, ast.Call) and isinstance(s.value.func, ast.Attribute) and s.value.func.attr == "append"
+                and isinstance(s.value.func.value, ast.Name) and len(s.value.args) == 1 and not s.value.keywords):
+            x = s.value.func.value.id
+            if x not in env or env[x].ty != LT or env[x].maybe:
+                raise Untranslatable("append " + _u(s))
+            pre = []
+            v = self.arg(s.value.args[0], env, pre, T)
+            let, env2 = self.assign(x, f"({env[x].alias or V(x)} ++ [{v}])", LT, env)
+            return self.wrap(pre, let + self.run(rest, env2, k))
         if isinstance(s, ast.AugAssign) and isinstance(s.target, ast.Name) and isinstance(s.op, (ast.Add, ast.Sub)):
             return self.run([ast.Assign(targets=[ast.Name(id=s.target.id, ctx=ast.Store())],
                                         value=ast.BinOp(left=ast.Name(id=s.target.id, ctx=ast.Load()), op=s.op, right=s.value))] + rest, env, k)
@@ -458,14 +557,28 @@ class Fn:
         # `x is None` / `x is not None` on an optional parameter: the branch where it is present sees its content
         if (isinstance(t, ast.Compare) and len(t.ops) == 1 and isinstance(t.ops[0], (ast.Is, ast.IsNot)) and isinstance(t.left, ast.Name)
                 and isinstance(t.comparators[0], ast.Constant) and t.comparators[0].value is None
+                and t.left.id in env and (env[t.left.id].present or env[t.left.id].absent)):
+            none_body, some_body = (s.body, s.orelse) if isinstance(t.ops[0], ast.Is) else (s.orelse, s.body)
+            return self.run(list(none_body if env[t.left.id].absent else some_body) + rest, dict(env), k)
+        if (isinstance(t, ast.Compare) and len(t.ops) == 1 and isinstance(t.ops[0], (ast.Is, ast.IsNot)) and isinstance(t.left, ast.Name)
+                and isinstance(t.comparators[0], ast.Constant) and t.comparators[0].value is None
                 and t.left.id in env and env[t.left.id].ty in OPTION_OF and not env[t.left.id].maybe):
             x = t.left.id
             none_body, some_body = (s.body, s.orelse) if isinstance(t.ops[0], ast.Is) else (s.orelse, s.body)
             env_some = dict(env); env_some[x] = Var(OPTION_OF[env[x].ty], present=True)
-            return (f"(match {V(x)} with None => {self.run(list(none_body) + rest, dict(env), k)} "
+            env_none = dict(env); env_none[x] = Var(env[x].ty, absent=True)
+            return (f"(match {V(x)} with None => {self.run(list(none_body) + rest, env_none, k)} "
                     f"| Some {V(x)} => {self.run(list(some_body) + rest, env_some, k)} end)")
+        def unmodelled(body):
+            return any(isinstance(n, ast.Call) and _u(n.func) == "warnings.warn" for st_ in body for n in ast.walk(st_))
         pre = []
         c, tc = self.expr(t, env, pre)
+        if unmodelled(s.body) or unmodelled(s.orelse):
+            # a branch that warns it is outside the documented inputs (khatri_rao of 1-D operands): an opaque argument of the regenerated routine
+            self.uses_unmodelled = True
+            a = "unmodelled" if unmodelled(s.body) else self.run(list(s.body) + rest, dict(env), k)
+            b = "unmodelled" if unmodelled(s.orelse) else self.run(list(s.orelse) + rest, dict(env), k)
+            return self.wrap(pre, f"(if {c} then {a} else {b})")
         if tc == N:
             c, tc = f"(negb (Nat.eqb {c} 0))", B
         if tc != B:
@@ -511,6 +624,11 @@ class Fn:
             tgt = None
             if isinstance(n, ast.Assign):
                 for t_ in n.targets:
+                    if isinstance(t_, ast.Tuple) and all(isinstance(x, ast.Name) for x in t_.elts):
+                        for x in t_.elts:
+                            if x.id not in state and x.id not in names:
+                                state.append(x.id)
+                        continue
                     if not isinstance(t_, ast.Name):
                         raise Untranslatable("assignment target inside a loop: " + _u(t_))
                     tgt = t_.id
@@ -521,10 +639,24 @@ class Fn:
                     raise Untranslatable("assignment target inside a loop: " + _u(n.target))
                 if n.target.id not in state and n.target.id not in names:
                     state.append(n.target.id)
+            elif (isinstance(n, ast.Call) and isinstance(n.func, ast.Attribute) and n.func.attr == "append" and isinstance(n.func.value, ast.Name)
+                  and n.func.value.id in env and env[n.func.value.id].ty == LT):
+                if n.func.value.id not in state:
+                    state.append(n.func.value.id)
             elif isinstance(n, ast.Call) and isinstance(n.func, ast.Attribute) and n.func.attr in ("append", "pop", "insert", "extend"):
                 raise Untranslatable("list mutation inside a loop: " + _u(n))
         if not state:
-            raise Untranslatable("loop without state")
+            # a loop that only checks (raises or not): the state is unit
+            env_in = dict(env)
+            for n_, ty in zip(names, etys):
+                env_in[n_] = Var(ty)
+
+            def unit(_):
+                return "Ok tt"
+            unit.is_loop = True
+            body = self.run(list(s.body), env_in, unit)
+            xpat = "'(" + ", ".join(V(x) for x in names) + ")" if len(names) > 1 else V(names[0])
+            return self.wrap(pre, f"rbind (fold_res (fun (st : unit) x => let {xpat} := x in {body}) {itext} tt) (fun _ => {self.run(rest, dict(env), k)})")
         # a local that is first bound inside the body and not used after the loop is a temporary of one iteration, not loop state
         # (if some path of the body reads it before binding it, the translation below fails with "free name" and it becomes state)
         if temps is None:
@@ -557,9 +689,9 @@ class Fn:
             for x in state:
                 v = e2[x]
                 if env_in[x].cell["opt"]:
-                    out.append(V(x) if v.maybe else f"(Some {V(x)})")
+                    out.append(V(x) if v.maybe else f"(Some {v.alias or V(x)})")
                 else:
-                    out.append(V(x))
+                    out.append(v.alias or V(x))
             return "Ok (" + ", ".join(out) + ")" if len(out) > 1 else "Ok " + out[0]
         pack.is_loop = True
         body = self.run(list(s.body), env_in, pack)
@@ -584,8 +716,11 @@ class Fn:
 
         def end(_):
             raise Untranslatable(f"{self.fn.name} may fall off its end")
+        self.uses_unmodelled = False
         body = self.run(list(self.fn.body), env, end)
         ps = " ".join(f"({V(p)} : {GT[t]})" for p, t in self.params.items())
+        if self.uses_unmodelled:
+            ps = f"(unmodelled : res ({GT[self.ret]})) " + ps
         return f"Definition {name} {ps} : res ({GT[self.ret]}) :=\n  {body}."
 
 
@@ -599,18 +734,129 @@ def _function(repo, rel, name):
 
 
 HEADER = """From Coq Require Import List Arith ZArith Lia Bool. Import ListNotations.
-From TLV Require Import Base.Shape Base.PyList Base.Tensor Model.Base Model.Tenalg Proofs.TenalgProofs Proofs.TenalgProofsValidate Proofs.TenalgProofsSrc.
+From Coq Require Import Ring_theory.
+From TLV Require Import Base.Shape Base.PyList Base.Tensor Base.BigSum Model.Base Proofs.BaseProofs Model.Tenalg Proofs.TenalgProofs Proofs.TenalgProofsKR Proofs.TenalgProofsValidate
+  Proofs.TenalgProofsMulti Proofs.TenalgProofsMultiGen Proofs.TenalgProofsMemory Proofs.TenalgProofsDefault Proofs.TenalgProofsSrc.
 Ltac split_all :=
   repeat (cbn [rbind fst snd negb andb orb py_get Nat.eqb Nat.ltb Nat.leb];
           first [ match goal with |- context [if ?b then _ else _] => is_var b; destruct b end
                 | match goal with |- context [match ?o with Some _ => _ | None => _ end] => is_var o; destruct o end
                 | match goal with |- context [if ?b then _ else _] => destruct b eqn:? end
                 | match goal with |- context [rbind ?x _] => destruct x eqn:? end ]);
-  cbn [rbind fst snd negb andb orb py_get Nat.eqb Nat.ltb Nat.leb].
+  cbn [rbind fst snd negb andb orb py_get Nat.eqb Nat.ltb Nat.leb];
+  try solve [cbn [negb andb orb] in *; congruence].
+Ltac kill_rbind :=
+  repeat (rewrite ?rbind_ok_id; cbn [rbind py_get];
+          match goal with |- context [rbind ?x _] =>
+            lazymatch x with rbind _ _ => fail | Ok _ => fail | Err => fail | _ => destruct x eqn:? end end);
+  rewrite ?rbind_ok_id; cbn [rbind py_get].
 Section G. Context {F : Type} (Op : rops F).
 """
 
 PROOFS = {
+    "unfolding_dot_khatri_rao_memory": """
+(* on the inputs of C02_mttkrp_memory (well-formed tensor with non-empty index space, one well-formed R-column factor per mode, R > 0):
+   the list-building loop is collect over the components, every component is the all-vector multi_mode_dot with modes=None
+   [C02_multi_mode_dot_default_modes], np.stack sees R one-dimensional arrays of the mode's length *)
+Section Mem.
+Hypothesis Rth : ring_theory (r0 Op) (r1 Op) (radd Op) (rmul Op) (rsub Op) (ropp Op) (@eq F).
+Theorem mttkrp_memory_source_is_model : forall T w fs k R,
+  wf T -> k < ndim T -> 0 < prod (shape T) -> 0 < R -> map nrows fs = shape T -> mats R fs ->
+  unfolding_dot_khatri_rao_memory_py T (w, fs) k = mttkrp_memory Op T w fs k.
+Proof.
+  intros T w fs k R WT Hk Hpos HR Hrows Hm.
+  assert (Hlen : length fs = ndim T) by (unfold ndim; rewrite <- Hrows; now rewrite map_length).
+  destruct fs as [|f0 fs0] eqn:Efs; [unfold ndim in *; simpl in Hlen; lia|]. rewrite <- Efs in *.
+  assert (Hs0 : shape f0 = [nrows f0; R]).
+  { rewrite Efs in Hm. inversion Hm as [|? ? [_ Hs0] _]; subst. exact Hs0. }
+  assert (Hc0 : ncols f0 = R) by (unfold ncols; now rewrite Hs0).
+  set (sk := nth k (shape T) 0).
+  set (g := fun r => tabulate [sk] (fun idx => ssum Op (remove_nth k (shape T))
+               (fun is_ => rmul Op (vprod Op (remove_nth k (map (ccol Op r) fs)) is_) (get (r0 Op) T (insert_at k (nth 0 idx 0) is_))))).
+  assert (Hparts : forall r, multi_mode_dot Op T (map (ccol Op r) fs) None (Some k) false = Ok (g r)).
+  { intros r. apply (mmd_all_vectors_skip Op Rth); auto.
+    - now rewrite map_length.
+    - unfold allvec. apply Forall_forall. intros v Hv. apply in_map_iff in Hv. destruct Hv as [f [<- _]]. reflexivity.
+    - intros j Hj. rewrite map_length in Hj. rewrite (nth_map' (ccol Op r) _ _ (mk [] [])) by exact Hj. split.
+      + unfold ccol. apply (wf_conj_t Op). apply wf_tabulate.
+      + unfold ccol, conj_t, tmap, column, tabulate. cbn [shape]. f_equal. rewrite <- Hrows. symmetry. apply nth_map'. exact Hj. }
+  assert (Hz : forall r, multi_mode_dot_z Op T (map (fun f => conj_t Op (column Op f r)) fs)
+                           (map Z.of_nat (seq 0 (length (map (fun f => conj_t Op (column Op f r)) fs)))) (Some k) false = Ok (g r)).
+  { intros r. rewrite (proj1 (multi_mode_dot_default_modes Op T _ (Some k) false (eq_ind _ (fun n => n <= ndim T) (le_n _) _ (eq_sym (eq_trans (map_length _ fs) Hlen))))).
+    exact (Hparts r). }
+  assert (Hmodel : mttkrp_memory Op T w fs k = apply_w Op (match w with None => None | Some w0 => Some (conj_t Op w0) end) (stack_cols Op sk (map g (seq 0 R)))).
+  { unfold mttkrp_memory. rewrite Efs. rewrite <- Efs. rewrite Hc0.
+    rewrite (collect_map_ok (fun r => multi_mode_dot Op T (map (fun f => conj_t Op (column Op f r)) fs) None (Some k) false) g) by (intros; apply Hparts).
+    reflexivity. }
+  rewrite Hmodel. unfold unfolding_dot_khatri_rao_memory_py. cbv zeta.
+  assert (Hit : py_item fs 0 = Ok f0) by (rewrite Efs; reflexivity). rewrite Hit. cbn [rbind].
+  rewrite Hs0, py_nth_z_1. cbn [rbind].
+  rewrite (fold_res_append_sim (fun r => multi_mode_dot_z Op T (map (fun f => conj_t Op (column Op f r)) fs)
+                           (map Z.of_nat (seq 0 (length (map (fun f => conj_t Op (column Op f r)) fs)))) (Some k) false)) by (intros; reflexivity).
+  rewrite (collect_map_ok _ g) by (intros; apply Hz). cbn [rbind app].
+  rewrite (np_stack1_ok Op g sk R HR) by (intros; reflexivity).
+  destruct w as [w0|]; cbn [rbind apply_w]; rewrite ?rbind_ok_id; reflexivity.
+Qed.
+End Mem.
+""",
+    "khatri_rao": """
+(* every path: skip (comp_skip = remove_nth), mask cast, the single-matrix branch, the validation loop (= kr_valid), the main loop
+   (= fold_left kr_step from the weighted first matrix), the final mask; `unmodelled` is what the code does with 1-D operands
+   (a warning and a reshape), outside the model and excluded by the hypothesis on the first operand *)
+Lemma kr_valid_shapes (M0 : tensor F) l a n : shape M0 = [a; n] -> kr_valid (M0 :: l) = true ->
+  Forall (fun M => exists b, shape M = [b; n]) l.
+Proof.
+  intros H0 Hv. unfold kr_valid in Hv. cbn [forallb] in Hv. apply andb_true_iff in Hv. destruct Hv as [_ Hv].
+  rewrite forallb_forall in Hv. apply Forall_forall. intros M HM. specialize (Hv M HM). apply andb_true_iff in Hv.
+  destruct Hv as [H2 Hc]. apply Nat.eqb_eq in H2. apply Nat.eqb_eq in Hc. unfold ndim in H2. unfold ncols in Hc. rewrite H0 in Hc. cbn [nth] in Hc.
+  destruct (shape M) as [|b [|c [|? ?]]]; cbn in H2; try discriminate. cbn [nth] in Hc. subst c. now exists b.
+Qed.
+Lemma kr_core (unm : res (tensor F)) (L : list (tensor F)) (w mask : option (tensor F)) :
+  match L with M0 :: _ :: _ => ndim M0 = 2 | _ => True end ->
+  khatri_rao_py unm L w None mask = khatri_rao Op L w mask None.
+Proof.
+  intros Hnd. unfold khatri_rao_py, khatri_rao. cbn [skipl].
+  destruct L as [|M0 [|M1 rest]].
+  - destruct mask; reflexivity.
+  - assert (Hw0 : forall M : tensor F, apply_w Op None M = Ok M) by reflexivity.
+    assert (Hm0 : forall M : tensor F, apply_mask Op None M = Ok M) by reflexivity.
+    destruct mask, w; cbn [length Nat.eqb py_item nth_error rbind]; rewrite ?Hw0, ?Hm0; cbn [rbind];
+      repeat (rewrite ?rbind_ok_id, ?Hw0, ?Hm0; try reflexivity; match goal with |- context [rbind ?x _] => destruct x eqn:?; cbn [rbind] end);
+      rewrite ?rbind_ok_id, ?Hw0, ?Hm0; try reflexivity.
+  - set (L := M0 :: M1 :: rest) in *.
+    destruct (shape M0) as [|a [|n [|? ?]]] eqn:E0; unfold ndim in Hnd; rewrite E0 in Hnd; cbn in Hnd; try discriminate. clear Hnd.
+    assert (Hn2 : Nat.eqb (ndim M0) 2 = true) by (unfold ndim; now rewrite E0).
+    assert (Hval : forall step, (forall x, step tt x = if (fun p : nat * tensor F => (ndim (snd p) =? 2) && (ncols (snd p) =? n)) x then Ok tt else Err) ->
+                   fold_res step (py_enumerate L) tt = if kr_valid L then Ok tt else Err).
+    { intros step Hs. rewrite (fold_res_check _ step Hs). unfold py_enumerate.
+      rewrite (forallb_enumerate (fun M => (ndim M =? 2) && (ncols M =? n)) L 0). unfold kr_valid, L, ncols. rewrite E0. reflexivity. }
+    destruct mask as [mk|], w as [w0|];
+      cbn [length Nat.eqb py_item nth_error rbind L]; rewrite ?Hn2; cbn [rbind]; rewrite ?E0, ?py_nth_z_1; cbn [rbind];
+      (rewrite Hval by (intros [i M]; cbn [snd]; unfold ndim, ncols; destruct (shape M) as [|b [|c [|? ?]]];
+                        cbn [length Nat.eqb negb andb nth]; rewrite ?py_nth_z_1, ?py_nth_z_1_short, ?py_nth_z_nil; cbn [rbind];
+                        split_all; reflexivity));
+      (destruct (kr_valid L) eqn:Ev; cbn [rbind]; [|reflexivity]);
+      pose proof (kr_valid_shapes M0 (M1 :: rest) a n E0 Ev) as Hsh;
+      unfold L; cbn [tl];
+      match goal with |- context [fold_res ?st (py_enumerate (M1 :: rest)) None] =>
+        first [ rewrite (kr_loop Op st (apply_w Op (Some w0) M0) n) with (l := M1 :: rest)
+              | rewrite (kr_loop Op st (apply_w Op None M0) n) with (l := M1 :: rest) ]
+      end; try discriminate; try exact Hsh;
+      try (intros R0 HR0; exists a; first [injection HR0 as <-; exact E0 | rewrite (apply_w_shape Op _ _ _ HR0); exact E0]);
+      try (intros; cbn [Nat.eqb apply_w]; unfold kr_step_chk; split_all; reflexivity);
+      try (cbn [apply_w]; kill_rbind; reflexivity).
+Qed.
+Theorem khatri_rao_source_is_model : forall unm Ms w skip mask,
+  match skipl skip Ms with M0 :: _ :: _ => ndim M0 = 2 | _ => True end ->
+  khatri_rao_py unm Ms w skip mask = khatri_rao Op Ms w mask skip.
+Proof.
+  intros unm Ms w skip mask H. destruct skip as [s|].
+  - cbn [skipl] in H. transitivity (khatri_rao_py unm (remove_nth s Ms) w None mask).
+    + unfold khatri_rao_py. now rewrite comp_skip_remove_nth.
+    + rewrite (kr_core unm (remove_nth s Ms) w mask H). reflexivity.
+  - exact (kr_core unm Ms w mask H).
+Qed.
+""",
     "mode_dot": """
 Lemma py_index_lt n z k : py_index n z = Some k -> k < n.
 Proof. intros H. exact (proj1 (py_index_spec _ _ _ H)). Qed.
@@ -686,11 +932,13 @@ Qed.
 ROUTINES = [
     ("n_mode_product.py", "mode_dot", {"tensor": T, "matrix_or_vector": T, "mode": Z, "transpose": B}, T),
     ("n_mode_product.py", "multi_mode_dot", {"tensor": T, "matrix_or_vec_list": LT, "modes": OLZ, "skip": ON, "transpose": B}, T),
+    ("_khatri_rao.py", "khatri_rao", {"matrices": LT, "weights": OT, "skip_matrix": ON, "mask": OT}, T),
     ("_kronecker.py", "kronecker", {"matrices": LT, "skip_matrix": ON, "reverse": B}, T),
     ("mttkrp.py", "unfolding_dot_khatri_rao", {"tensor": T, "cp_tensor": PAIR_OT_LT, "mode": N}, T),
+    ("mttkrp.py", "unfolding_dot_khatri_rao_memory", {"tensor": T, "cp_tensor": PAIR_OT_LT, "mode": N}, T),
 ]
-THEOREMS = {"mode_dot": "mode_dot_source_is_model", "multi_mode_dot": "multi_mode_dot_source_is_model", "kronecker": "kronecker_source_is_model",
-            "unfolding_dot_khatri_rao": "mttkrp_source_is_model"}
+THEOREMS = {"mode_dot": "mode_dot_source_is_model", "khatri_rao": "khatri_rao_source_is_model", "multi_mode_dot": "multi_mode_dot_source_is_model", "kronecker": "kronecker_source_is_model",
+            "unfolding_dot_khatri_rao": "mttkrp_source_is_model", "unfolding_dot_khatri_rao_memory": "mttkrp_memory_source_is_model"}
 
 
 def generate(repo, routine):
@@ -713,10 +961,12 @@ BACKEND_FILES = {"mode_dot": "n_mode_product", "multi_mode_dot": "n_mode_product
                  "inner": "generalised_inner_product", "outer": "outer_product", "batched_outer": "outer_product",
                  "higher_order_moment": "moments", "tensordot": "_batched_tensordot", "unfolding_dot_khatri_rao": "mttkrp"}
 # names the translator reads as model routines, per translated function: they must be bound to exactly these objects
-CALLEES = {"mode_dot": {"unfold": "tensorly.base:unfold", "fold": "tensorly.base:fold", "vec_to_tensor": "tensorly.base:vec_to_tensor"},
+CALLEES = {"khatri_rao": {},
+           "mode_dot": {"unfold": "tensorly.base:unfold", "fold": "tensorly.base:fold", "vec_to_tensor": "tensorly.base:vec_to_tensor"},
            "multi_mode_dot": {"mode_dot": "tensorly.tenalg.core_tenalg.n_mode_product:mode_dot"},
            "kronecker": {},
-           "unfolding_dot_khatri_rao": {"khatri_rao": "tensorly.tenalg.core_tenalg._khatri_rao:khatri_rao", "unfold": "tensorly.base:unfold"}}
+           "unfolding_dot_khatri_rao": {"khatri_rao": "tensorly.tenalg.core_tenalg._khatri_rao:khatri_rao", "unfold": "tensorly.base:unfold"},
+           "unfolding_dot_khatri_rao_memory": {"multi_mode_dot": "tensorly.tenalg.core_tenalg.n_mode_product:multi_mode_dot"}}
 
 
 def routing(repo):
